@@ -1,3 +1,5 @@
+// Package c02: outside the subset goose rejects instead of mistranslating
+// (DESIGN.md §3 C02). The catalogue lives in harness/catalog.
 package c02
 
 import (
@@ -10,6 +12,7 @@ import (
 
 	"pgregory.net/rapid"
 
+	"verifharness/catalog"
 	"verifharness/ev"
 	"verifharness/gen"
 	"verifharness/glang"
@@ -43,100 +46,15 @@ func setup() bool {
 	return true
 }
 
-// Use is one use of a catalogue item in a context.
-type Use struct {
-	Item string `json:"item"`
-	Ctx  int    `json:"ctx"`
-}
-
 // Case is a package: optional generated base program + item uses.
 type Case struct {
-	Base string `json:"base"` // source of the base program ("" = none); package main
-	Uses []Use  `json:"uses"`
-}
-
-var contexts = []string{"plain", "then-branch", "else-branch", "loop-body", "closure"}
-
-func itemByID(id string) *Item {
-	for i := range catalogue {
-		if catalogue[i].ID == id {
-			return &catalogue[i]
-		}
-	}
-	return nil
-}
-
-func indent(s string) string { return strings.ReplaceAll(s, "\n", "\n\t") }
-
-// renderUse renders the declarations and the entry function of one use.
-func renderUse(u Use, k int) (decls string, entry string, name string) {
-	it := itemByID(u.Item)
-	suffix := fmt.Sprintf("x%d", k)
-	sub := func(s string) string { return strings.ReplaceAll(s, "%N%", suffix) }
-	name = fmt.Sprintf("entryC%d", k)
-	core := sub(it.Core)
-	ctx := u.Ctx
-	if it.NoCtx {
-		ctx = 0
-	}
-	switch ctx {
-	case 1:
-		core = "if r == 0 {\n\t\t" + indent(core) + "\n\t}"
-	case 2:
-		core = "if r != 0 {\n\t\tr = 9\n\t} else {\n\t\t" + indent(core) + "\n\t}"
-	case 3:
-		core = "for it := uint64(0); it < 1; it++ {\n\t\t" + indent(core) + "\n\t}"
-	case 4:
-		core = "fn := func() {\n\t\t" + indent(core) + "\n\t}\n\tfn()"
-	}
-	var sb strings.Builder
-	fmt.Fprintf(&sb, "func %s() uint64 {\n\tvar r uint64\n", name)
-	if it.Setup != "" {
-		sb.WriteString("\t" + sub(it.Setup) + "\n")
-	}
-	sb.WriteString("\t" + core + "\n\treturn r\n}\n")
-	return sub(it.Decls), sb.String(), name
-}
-
-func render(c Case) (string, map[string]Use) {
-	var sb strings.Builder
-	entries := map[string]Use{}
-	needSync := false
-	var body strings.Builder
-	for k, u := range c.Uses {
-		d, e, name := renderUse(u, k)
-		if strings.Contains(d+e, "sync.") {
-			needSync = true
-		}
-		if d != "" {
-			body.WriteString(d + "\n\n")
-		}
-		body.WriteString(e + "\n")
-		entries[name] = u
-	}
-	if c.Base != "" {
-		base := c.Base
-		if needSync && !strings.Contains(base, "\"sync\"") {
-			if strings.Contains(base, "import (") {
-				base = strings.Replace(base, "import (", "import (\n\t\"sync\"", 1)
-			} else {
-				base = strings.Replace(base, "package main\n", "package main\n\nimport \"sync\"\n", 1)
-			}
-		}
-		sb.WriteString(base + "\n")
-	} else {
-		sb.WriteString("package main\n\n")
-		if needSync {
-			sb.WriteString("import \"sync\"\n\n")
-		}
-	}
-	sb.WriteString(body.String())
-	return sb.String(), entries
+	Base string        `json:"base"` // source of the base program ("" = none); package main
+	Uses []catalog.Use `json:"uses"`
 }
 
 // Outcome of one use.
 type Outcome struct {
-	Use     Use
+	Use     catalog.Use
 	Class   string // rejected | faithful | go-panic | MISTRANSLATED | CRASH | MALFORMED | inconclusive | reaches-rejected
 	Detail  string
 	Emitted string
@@ -145,7 +63,7 @@ type Outcome struct {
 // runCase validates the package and classifies every use. generatorBug is
 // non-empty when the rendered package does not type-check / compile.
 func runCase(c Case) (outs []Outcome, other []string, generatorBug string) {
-	src, entries := render(c)
+	src, entries := catalog.RenderPackage(c.Base, c.Uses)
 	rep := tv.ValidateOpts(src, runner, tv.Options{AllowReject: true})
 	if rep.GeneratorBug != "" {
 		return nil, nil, rep.GeneratorBug
@@ -205,7 +123,9 @@ func runCase(c Case) (outs []Outcome, other []string, generatorBug string) {
 	return outs, other, ""
 }
 
-func isViolation(class string) bool { return class == "MISTRANSLATED" || class == "CRASH" || class == "MALFORMED" }
+func isViolation(class string) bool {
+	return class == "MISTRANSLATED" || class == "CRASH" || class == "MALFORMED"
+}
 
 func account(o Outcome) {
 	ev.Add("programs", 1)
@@ -220,7 +140,7 @@ func account(o Outcome) {
 	}
 }
 
-func knownSkip(it *Item) bool {
+func knownSkip(it *catalog.Item) bool {
 	if it.Known != "" && ev.SwitchOn(it.Known) {
 		ev.Prune(it.Known)
 		return true
@@ -236,7 +156,7 @@ func checkUses(t ev.TB, test string, c Case) {
 		// a package-level type error can be caused by a single item: retry the uses one by one
 		if len(c.Uses) > 1 {
 			for _, u := range c.Uses {
-				checkUses(t, test, Case{Uses: []Use{u}})
+				checkUses(t, test, Case{Uses: []catalog.Use{u}})
 			}
 			return
 		}
@@ -256,19 +176,19 @@ func checkUses(t ev.TB, test string, c Case) {
 	if crashed {
 		// find the culprit: run each use alone
 		for _, u := range c.Uses {
-			checkUses(t, test, Case{Uses: []Use{u}})
+			checkUses(t, test, Case{Uses: []catalog.Use{u}})
 		}
 		return
 	}
 	for _, o := range outs {
 		account(o)
 		if ev.WantSample() && (o.Class == "rejected" || o.Class == "faithful") {
-			_, e, _ := renderUse(o.Use, 0)
-			ev.Sample(map[string]any{"item": o.Use.Item, "context": contexts[o.Use.Ctx], "outcome": o.Class, "detail": o.Detail, "entry": e})
+			_, e, _ := catalog.RenderUse(o.Use, 0)
+			ev.Sample(map[string]any{"item": o.Use.Item, "context": catalog.Contexts[o.Use.Ctx], "outcome": o.Class, "detail": o.Detail, "entry": e})
 		}
 		if isViolation(o.Class) {
-			single := Case{Base: "", Uses: []Use{o.Use}}
-			ev.Failf(t, test, single, "item %s in context %s: %s\n%s\n--- emitted ---\n%s", o.Use.Item, contexts[o.Use.Ctx], o.Class, o.Detail, o.Emitted)
+			single := Case{Base: "", Uses: []catalog.Use{o.Use}}
+			ev.Failf(t, test, single, "item %s in context %s: %s\n%s\n--- emitted ---\n%s", o.Use.Item, catalog.Contexts[o.Use.Ctx], o.Class, o.Detail, o.Emitted)
 		}
 	}
 	if len(other) > 0 {
@@ -281,10 +201,6 @@ func firstLine(s string) string {
 		return s[:i]
 	}
 	return s
-}
-
-func isSolo(it *Item) bool {
-	return strings.HasPrefix(it.ID, "user-func-") || strings.HasPrefix(it.ID, "user-var-")
 }
 
 func pinned(t ev.TB, test string) {
@@ -320,15 +236,15 @@ func TestCatalogueSweep(t *testing.T) {
 	nsh := ev.EnvInt("VERIF_NSHARDS", 1)
 	sh := ev.ShardIndex()
 	nctx := ev.EnvInt("VERIF_C02_CTXS", 2)
-	var batch []Use
+	var batch []catalog.Use
 	flush := func() {
 		if len(batch) > 0 {
 			checkUses(t, "TestCatalogueSweep", Case{Uses: batch})
 			batch = nil
 		}
 	}
-	for i := range catalogue {
-		it := &catalogue[i]
+	for i := range catalog.Items {
+		it := &catalog.Items[i]
 		if i%nsh != sh {
 			continue
 		}
@@ -337,18 +253,18 @@ func TestCatalogueSweep(t *testing.T) {
 		}
 		ctxs := []int{0}
 		if !it.NoCtx {
-			for k := 1; k < nctx && k < len(contexts); k++ {
+			for k := 1; k < nctx && k < len(catalog.Contexts); k++ {
 				ctxs = append(ctxs, int((ev.Seed()+int64(i)+int64(k)*3)%4)+1)
 			}
-			if nctx >= len(contexts) {
+			if nctx >= len(catalog.Contexts) {
 				ctxs = []int{0, 1, 2, 3, 4}
 			}
 		}
 		for _, cx := range ctxs {
-			u := Use{Item: it.ID, Ctx: cx}
-			if isSolo(it) {
+			u := catalog.Use{Item: it.ID, Ctx: cx}
+			if it.Solo() {
 				flush()
-				checkUses(t, "TestCatalogueSweep", Case{Uses: []Use{u}})
+				checkUses(t, "TestCatalogueSweep", Case{Uses: []catalog.Use{u}})
 				continue
 			}
 			batch = append(batch, u)
@@ -371,19 +287,19 @@ func TestInsertions(t *testing.T) {
 		cfg := gen.DefaultConfig()
 		cfg.Entries, cfg.Helpers, cfg.MaxStmts = 2, 2, 4
 		base := gen.Generate(t, cfg).Source("main")
-		var pool []*Item
-		for i := range catalogue {
-			it := &catalogue[i]
-			if isSolo(it) || knownSkip(it) {
+		var pool []*catalog.Item
+		for i := range catalog.Items {
+			it := &catalog.Items[i]
+			if it.Solo() || knownSkip(it) {
 				continue
 			}
 			pool = append(pool, it)
 		}
 		n := rapid.IntRange(1, 4).Draw(t, "nitems")
-		var uses []Use
+		var uses []catalog.Use
 		for k := 0; k < n; k++ {
 			it := pool[rapid.IntRange(0, len(pool)-1).Draw(t, "item")]
-			uses = append(uses, Use{Item: it.ID, Ctx: rapid.IntRange(0, len(contexts)-1).Draw(t, "ctx")})
+			uses = append(uses, catalog.Use{Item: it.ID, Ctx: rapid.IntRange(0, len(catalog.Contexts)-1).Draw(t, "ctx")})
 		}
 		checkUses(t, "TestInsertions", Case{Base: base, Uses: uses})
 	})
@@ -417,9 +333,9 @@ func TestDiscover(t *testing.T) {
 	if !setup() {
 		t.Skip("setup failed")
 	}
-	for i := range catalogue {
-		it := &catalogue[i]
-		outs, other, bug := runCase(Case{Uses: []Use{{Item: it.ID, Ctx: 0}}})
+	for i := range catalog.Items {
+		it := &catalog.Items[i]
+		outs, other, bug := runCase(Case{Uses: []catalog.Use{{Item: it.ID, Ctx: 0}}})
 		if bug != "" {
 			fmt.Printf("%-28s GENERATOR-BUG %s\n", it.ID, firstLine(bug))
 			continue
